@@ -3,6 +3,7 @@
 # applied (seeded/<id>/patch.diff), undoes it, and updates meta.json. Default checks: the property the change breaks.
 import argparse, json, os, re, shutil, subprocess, sys, time
 VERIF = os.path.dirname(os.path.dirname(os.path.abspath(__file__)))
+REPO = os.environ.get("VERIF_REPO", "/repo")      # the tree the patch is applied to (the checks read the same variable)
 
 
 def sh(cmd, cwd=None, timeout=3600):
@@ -19,11 +20,11 @@ def main():
         out = os.path.join(VERIF, "seeded", sid)
         meta = json.load(open(os.path.join(out, "meta.json")))
         checks = a.checks.split(",") if a.checks else [meta["breaks"]]
-        rc, o = sh("git status --porcelain", cwd="/repo")
+        rc, o = sh("git status --porcelain", cwd=REPO)
         if o.strip():
-            print("/repo is not clean:", o)
+            print(REPO, "is not clean:", o)
             return 1
-        rc, o = sh("git apply %s" % os.path.join(out, "patch.diff"), cwd="/repo")
+        rc, o = sh("git apply %s" % os.path.join(out, "patch.diff"), cwd=REPO)
         if rc != 0:
             print(sid, "patch does not apply:", o)
             continue
@@ -39,7 +40,7 @@ def main():
                         shutil.copy(m.group(1), os.path.join(out, "detected_by_%s.json" % c))
                 print(sid, c, "exit", rc, "violations", len(viol), "%.0fs" % (time.time() - t0))
         finally:
-            sh("git checkout -- .", cwd="/repo")
+            sh("git checkout -- .", cwd=REPO)
         meta["caught_by"] = [c for c, r in meta["checks"].items() if r["violations"]]
         json.dump(meta, open(os.path.join(out, "meta.json"), "w"), indent=1)
     return 0
